@@ -92,7 +92,9 @@ func (r Resources) ContainsBucketPattern() bool {
 // Bucket resources should start with bucket name: arn:aws:s3:::MyBucket/*
 func (r Resources) Validate(bucket string) error {
 	for resource := range r {
-		if !strings.HasPrefix(resource, bucket) {
+		// the resource names the bucket itself or something below it:
+		// a mere name prefix ("bucket2/*", "bucket*") is another bucket
+		if resource != bucket && !strings.HasPrefix(resource, bucket+"/") {
 			return policyErrInvalidResource
 		}
 	}
@@ -118,12 +120,14 @@ func (r Resources) Match(pattern, input string) bool {
 	starIdx, matchIdx := -1, 0
 
 	for sIdx < len(input) {
-		if pIdx < len(pattern) && (pattern[pIdx] == '?' || pattern[pIdx] == input[sIdx]) {
-			sIdx++
-			pIdx++
-		} else if pIdx < len(pattern) && pattern[pIdx] == '*' {
+		// the wildcard test comes first: a '*' in the pattern is a wildcard
+		// also when the subject happens to have a literal '*' at this place
+		if pIdx < len(pattern) && pattern[pIdx] == '*' {
 			starIdx = pIdx
 			matchIdx = sIdx
+			pIdx++
+		} else if pIdx < len(pattern) && (pattern[pIdx] == '?' || pattern[pIdx] == input[sIdx]) {
+			sIdx++
 			pIdx++
 		} else if starIdx != -1 {
 			pIdx = starIdx + 1
